@@ -593,6 +593,7 @@ func runC08(c *Ctx) {
 		c.verdict(c.fnKey(mountsFn)+":lowerdir-order", mountsFn.Pos(), good, "lowerdir = upperPath(ParentIDs[0]):…:upperPath(ParentIDs[n-1])", "lower directories are not listed in ParentIDs order: "+why)
 	}
 	clauseUpdateKeepsRemoteMark(c, "C08.g")
+	clauseCommitAfterRename(c, "C08.h")
 	c.assume("containerd's storage package returns ParentIDs nearest parent first and IDMap/WalkInfo reflect the transaction's view")
 }
 
@@ -650,106 +651,7 @@ func runC09(c *Ctx) {
 	fns := c.pkgFuncs(snapPkg)
 	rl := c.remoteLabelVal()
 
-	c.clause("C09.a", "T1+T2", "createSnapshot commits only after the rename to the final directory; every error exit after directory creation runs the cleanup", 3)
-	if f := c.mustFn(snapPkg, "(*snapshotter).createSnapshot"); f != nil {
-		rens := callsIn(f, idIs("os.Rename"))
-		coms := callsIn(f, func(id string, ci ssa.CallInstruction) bool {
-			return ci.Common().IsInvoke() && ci.Common().Method.Name() == "Commit"
-		})
-		if len(rens) != 1 || len(coms) != 1 {
-			c.bad(c.fnKey(f)+":shape", f.Pos(), fmt.Sprintf("%d renames / %d commits (1/1 on the pinned tree)", len(rens), len(coms)))
-		} else {
-			okp, path := mustPass(f, coms[0], newCuts().addEdges(successEdges(f, rens[0])))
-			c.verdict(c.fnKey(f)+":rename-before-commit", coms[0].Pos(), okp, "metadata committed only after the directory has its final name", "metadata can be committed before the snapshot directory exists under its id: "+c.pathStr(f, path))
-			// rename target = Join(snapshotDir, s.ID); source = temp dir created by prepareDirectory
-			tgtOK := false
-			for _, v := range reachingVals(rens[0].Common().Args[1]) {
-				if jc, ok := stripConv(v).(*ssa.Call); ok && calleeID(jc) == "path/filepath.Join" {
-					parts := varargs(jc.Call.Args[0])
-					if len(parts) == 2 {
-						if fl, ok := stripConv(parts[1]).(*ssa.Field); ok && fl.X.Type().Underlying().(*types.Struct).Field(fl.Field).Name() == "ID" {
-							tgtOK = true
-						}
-						if _, ok := isFieldLoadAny(parts[1], "ID"); ok {
-							tgtOK = true
-						}
-					}
-				}
-			}
-			c.verdict(c.fnKey(f)+":rename-target", rens[0].Pos(), tgtOK, "renamed to snapshots/<snapshot id>", "directory is not renamed to the snapshot's id")
-			// CreateSnapshot (metadata) before rename, in the same transaction
-			crs := callsIn(f, func(id string, _ ssa.CallInstruction) bool { return strings.HasSuffix(id, "storage.CreateSnapshot") })
-			okc := len(crs) == 1
-			if okc {
-				okc, _ = mustPass(f, rens[0], newCuts().addEdges(successEdges(f, crs[0])))
-			}
-			c.verdict(c.fnKey(f)+":create-before-rename", rens[0].Pos(), okc, "id allocated by storage.CreateSnapshot before the rename", "rename happens without a successfully created metadata entry")
-		}
-		// cleanup defer: a deferred literal, registered before prepareDirectory, that calls cleanupSnapshotDirectory on err != nil for td and path
-		var cleanupLit *ssa.Function
-		var deferAt ssa.Instruction
-		for _, lit := range f.AnonFuncs {
-			if len(callsIn(lit, idIs(snapPkg+".(*snapshotter).cleanupSnapshotDirectory"))) >= 1 {
-				for _, u := range literalUses(lit) {
-					if d, ok := u.(*ssa.Defer); ok {
-						cleanupLit = lit
-						deferAt = d
-					}
-				}
-			}
-		}
-		good := cleanupLit != nil
-		if good {
-			for _, pd := range callsIn(f, idIs(snapPkg+".(*snapshotter).prepareDirectory")) {
-				okp, _ := mustPass(f, pd, newCuts().addInstr(deferAt))
-				good = good && okp
-			}
-			// inside: guarded by err != nil; both td and path handled
-			n := len(callsIn(cleanupLit, idIs(snapPkg+".(*snapshotter).cleanupSnapshotDirectory")))
-			nn := condEdges(cleanupLit, func(cond ssa.Value) int {
-				return -nilTest(cond, func(x ssa.Value) bool {
-					p, ok := loadOf(stripConv(x))
-					if !ok {
-						return false
-					}
-					a, ok := cellRoot(p).(*ssa.Alloc)
-					return ok && a.Parent() == f && isErrorType(deref(a.Type()))
-				})
-			})
-			good = good && n == 2 && len(nn) > 0
-			for _, ci := range callsIn(cleanupLit, idIs(snapPkg+".(*snapshotter).cleanupSnapshotDirectory")) {
-				okp, _ := mustPass(cleanupLit, ci, newCuts().addEdges(nn))
-				good = good && okp
-			}
-		}
-		// the temp-dir variable is forgotten only after the rename succeeded
-		if good && len(rens) == 1 {
-			se := successEdges(f, rens[0])
-			for _, a := range f.Locals {
-				if a.Comment != "td" {
-					continue
-				}
-			}
-			eachInstr(f, func(i ssa.Instruction) {
-				st, ok := i.(*ssa.Store)
-				if !ok {
-					return
-				}
-				al, ok := st.Addr.(*ssa.Alloc)
-				if !ok || al.Comment != "td" {
-					return
-				}
-				if sv, ok := constString(st.Val); ok && sv == "" {
-					if okp, _ := mustPass(f, st, newCuts().addEdges(se)); !okp {
-						// the initial zero value is not a store; any reset before the rename hides the temp dir from cleanup
-						good = false
-					}
-				}
-			})
-		}
-		c.verdict(c.fnKey(f)+":cleanup-on-error", f.Pos(), good, "a deferred block registered before directory creation reclaims the temp and final directory on every error exit", "an error exit of createSnapshot can leave a half-made directory behind without reclaiming it")
-	}
-
+	clauseCommitAfterRename(c, "C09.a")
 	c.clause("C09.b", "T2", "Remove: directories are deleted only after the transaction commit succeeded", 2)
 	runRemoveClause(c)
 
@@ -905,6 +807,9 @@ func runC09(c *Ctx) {
 
 	clauseMountRegistrationRolledBack(c, "C09.g")
 	clauseKnownMountIsLive(c, "C09.h")
+	clauseFreshDecodeTarget(c, "C09.i")
+	clauseCleanupSkipsOnlyLive(c, "C09.j")
+	clauseRestartFlagWiring(c, "C09.k")
 	c.clause("C09.f", "T5", "orphans are reclaimable: the cleanup scan lists every directory and keeps exactly the ids in storage.IDMap", 2)
 	if f := c.mustFn(snapPkg, "(*snapshotter).getCleanupDirectories"); f != nil {
 		idm := callsIn(f, func(id string, _ ssa.CallInstruction) bool { return strings.HasSuffix(id, "storage.IDMap") })
@@ -1015,4 +920,109 @@ func fromIDMap(v ssa.Value) bool {
 		}
 	}
 	return false
+}
+
+// clauseCommitAfterRename: createSnapshot makes the snapshot visible in the metadata only after its directory exists under
+// its final name (shared by C09 and C08).
+func clauseCommitAfterRename(c *Ctx, id string) {
+	c.clause(id, "T1+T2", "createSnapshot commits only after the rename to the final directory; every error exit after directory creation runs the cleanup", 3)
+	if f := c.mustFn(snapPkg, "(*snapshotter).createSnapshot"); f != nil {
+		rens := callsIn(f, idIs("os.Rename"))
+		coms := callsIn(f, func(id string, ci ssa.CallInstruction) bool {
+			return ci.Common().IsInvoke() && ci.Common().Method.Name() == "Commit"
+		})
+		if len(rens) != 1 || len(coms) != 1 {
+			c.bad(c.fnKey(f)+":shape", f.Pos(), fmt.Sprintf("%d renames / %d commits (1/1 on the pinned tree)", len(rens), len(coms)))
+		} else {
+			okp, path := mustPass(f, coms[0], newCuts().addEdges(successEdges(f, rens[0])))
+			c.verdict(c.fnKey(f)+":rename-before-commit", coms[0].Pos(), okp, "metadata committed only after the directory has its final name", "metadata can be committed before the snapshot directory exists under its id: "+c.pathStr(f, path))
+			// rename target = Join(snapshotDir, s.ID); source = temp dir created by prepareDirectory
+			tgtOK := false
+			for _, v := range reachingVals(rens[0].Common().Args[1]) {
+				if jc, ok := stripConv(v).(*ssa.Call); ok && calleeID(jc) == "path/filepath.Join" {
+					parts := varargs(jc.Call.Args[0])
+					if len(parts) == 2 {
+						if fl, ok := stripConv(parts[1]).(*ssa.Field); ok && fl.X.Type().Underlying().(*types.Struct).Field(fl.Field).Name() == "ID" {
+							tgtOK = true
+						}
+						if _, ok := isFieldLoadAny(parts[1], "ID"); ok {
+							tgtOK = true
+						}
+					}
+				}
+			}
+			c.verdict(c.fnKey(f)+":rename-target", rens[0].Pos(), tgtOK, "renamed to snapshots/<snapshot id>", "directory is not renamed to the snapshot's id")
+			// CreateSnapshot (metadata) before rename, in the same transaction
+			crs := callsIn(f, func(id string, _ ssa.CallInstruction) bool { return strings.HasSuffix(id, "storage.CreateSnapshot") })
+			okc := len(crs) == 1
+			if okc {
+				okc, _ = mustPass(f, rens[0], newCuts().addEdges(successEdges(f, crs[0])))
+			}
+			c.verdict(c.fnKey(f)+":create-before-rename", rens[0].Pos(), okc, "id allocated by storage.CreateSnapshot before the rename", "rename happens without a successfully created metadata entry")
+		}
+		// cleanup defer: a deferred literal, registered before prepareDirectory, that calls cleanupSnapshotDirectory on err != nil for td and path
+		var cleanupLit *ssa.Function
+		var deferAt ssa.Instruction
+		for _, lit := range f.AnonFuncs {
+			if len(callsIn(lit, idIs(snapPkg+".(*snapshotter).cleanupSnapshotDirectory"))) >= 1 {
+				for _, u := range literalUses(lit) {
+					if d, ok := u.(*ssa.Defer); ok {
+						cleanupLit = lit
+						deferAt = d
+					}
+				}
+			}
+		}
+		good := cleanupLit != nil
+		if good {
+			for _, pd := range callsIn(f, idIs(snapPkg+".(*snapshotter).prepareDirectory")) {
+				okp, _ := mustPass(f, pd, newCuts().addInstr(deferAt))
+				good = good && okp
+			}
+			// inside: guarded by err != nil; both td and path handled
+			n := len(callsIn(cleanupLit, idIs(snapPkg+".(*snapshotter).cleanupSnapshotDirectory")))
+			nn := condEdges(cleanupLit, func(cond ssa.Value) int {
+				return -nilTest(cond, func(x ssa.Value) bool {
+					p, ok := loadOf(stripConv(x))
+					if !ok {
+						return false
+					}
+					a, ok := cellRoot(p).(*ssa.Alloc)
+					return ok && a.Parent() == f && isErrorType(deref(a.Type()))
+				})
+			})
+			good = good && n == 2 && len(nn) > 0
+			for _, ci := range callsIn(cleanupLit, idIs(snapPkg+".(*snapshotter).cleanupSnapshotDirectory")) {
+				okp, _ := mustPass(cleanupLit, ci, newCuts().addEdges(nn))
+				good = good && okp
+			}
+		}
+		// the temp-dir variable is forgotten only after the rename succeeded
+		if good && len(rens) == 1 {
+			se := successEdges(f, rens[0])
+			for _, a := range f.Locals {
+				if a.Comment != "td" {
+					continue
+				}
+			}
+			eachInstr(f, func(i ssa.Instruction) {
+				st, ok := i.(*ssa.Store)
+				if !ok {
+					return
+				}
+				al, ok := st.Addr.(*ssa.Alloc)
+				if !ok || al.Comment != "td" {
+					return
+				}
+				if sv, ok := constString(st.Val); ok && sv == "" {
+					if okp, _ := mustPass(f, st, newCuts().addEdges(se)); !okp {
+						// the initial zero value is not a store; any reset before the rename hides the temp dir from cleanup
+						good = false
+					}
+				}
+			})
+		}
+		c.verdict(c.fnKey(f)+":cleanup-on-error", f.Pos(), good, "a deferred block registered before directory creation reclaims the temp and final directory on every error exit", "an error exit of createSnapshot can leave a half-made directory behind without reclaiming it")
+	}
+
 }
